@@ -1031,6 +1031,19 @@ impl<'de> SimpleTypeDeserializer<'de> {
     #[verifier::external_body]
     pub fn deserialize_seq<V: Visitor<'de>>(self, visitor: V) -> Result<V::Value, DeError> { unimplemented!() }
 }
+/// the characters a `Cow<str>` holds, however it holds them
+pub open spec fn cow_chars(c: Cow<'_, str>) -> Seq<char> { match c { Cow::Borrowed(s) => s@, Cow::Owned(s) => s@ } }
+/// OBSERVED hand-over of a string to the visitor (C14: the SAME characters whether the text is borrowed from the input -- from_str -- or
+/// owned -- from_reader; declared rewrite of the two calls in `deserialize_str`, which names the text read as a ghost argument)
+pub fn visit_borrowed_str_is<'de, V: Visitor<'de>>(expected: Ghost<Seq<char>>, visitor: V, v: &'de str) -> (r: Result<V::Value, DeError>)
+    requires v@ == expected@
+{ visitor.visit_borrowed_str(v) }
+pub fn visit_str_is<'de, V: Visitor<'de>>(expected: Ghost<Seq<char>>, visitor: V, v: &str) -> (r: Result<V::Value, DeError>)
+    requires v@ == expected@
+{ visitor.visit_str(v) }
+pub fn visit_string_is<'de, V: Visitor<'de>>(expected: Ghost<Seq<char>>, visitor: V, v: String) -> (r: Result<V::Value, DeError>)
+    requires v@ == expected@
+{ visitor.visit_string(v) }
 /// `str::parse::<T>()` for the number types (std FromStr, not modelled): a number or not -- nothing else is used (declared rewrite
 /// `text.parse()` ==> `parse_(&text)`)
 #[verifier::external_body]
@@ -2371,7 +2384,9 @@ where
             text.deserialize_bool(visitor)
         }
 //@end
-//@extract de::Deserializer::deserialize_i8 | src/de/mod.rs :: impl<'de, 'a, R, E> de::Deserializer<'de> for &'a mut Deserializer<'de, R, E> where R: XmlRead<'de>, E: EntityResolver, :: invoke deserialize_primitives :: invoke deserialize_num :: fn deserialize_i8 | serves=C07 features=serialize
+//@extract de::Deserializer::deserialize_i8 | src/de/mod.rs :: impl<'de, 'a, R, E> de::Deserializer<'de> for &'a mut Deserializer<'de, R, E> where R: XmlRead<'de>, E: EntityResolver, :: invoke deserialize_primitives :: invoke deserialize_num :: fn deserialize_i8 | serves=C07,C14 features=serialize
+//@rewrite visitor.visit_str( ==> visit_str_is(Ghost(tv), visitor, 
+//@rewrite visitor.visit_string( ==> visit_string_is(Ghost(tv), visitor, 
 //@rewrite-opt Self::Error ==> DeError
 //@rewrite text.parse() ==> parse_(&text)
         fn deserialize_i8<V>( self, visitor: V) -> Result<V::Value, DeError>
@@ -2380,16 +2395,19 @@ where
         {
             // No need to unescape because valid integer representations cannot be escaped
             let text = self.read_string()?;
+            let ghost tv = cow_chars(text);
             match parse_(&text) {
                 Ok(number) => visitor.visit_i8(number),
                 Err(_) => match text {
-                    Cow::Borrowed(t) => visitor.visit_str(t),
-                    Cow::Owned(t) => visitor.visit_string(t),
+                    Cow::Borrowed(t) => visit_str_is(Ghost(tv), visitor, t),
+                    Cow::Owned(t) => visit_string_is(Ghost(tv), visitor, t),
                 }
             }
         }
 //@end
-//@extract de::Deserializer::deserialize_i16 | src/de/mod.rs :: impl<'de, 'a, R, E> de::Deserializer<'de> for &'a mut Deserializer<'de, R, E> where R: XmlRead<'de>, E: EntityResolver, :: invoke deserialize_primitives :: invoke deserialize_num :: fn deserialize_i16 | serves=C07 features=serialize
+//@extract de::Deserializer::deserialize_i16 | src/de/mod.rs :: impl<'de, 'a, R, E> de::Deserializer<'de> for &'a mut Deserializer<'de, R, E> where R: XmlRead<'de>, E: EntityResolver, :: invoke deserialize_primitives :: invoke deserialize_num :: fn deserialize_i16 | serves=C07,C14 features=serialize
+//@rewrite visitor.visit_str( ==> visit_str_is(Ghost(tv), visitor, 
+//@rewrite visitor.visit_string( ==> visit_string_is(Ghost(tv), visitor, 
 //@rewrite-opt Self::Error ==> DeError
 //@rewrite text.parse() ==> parse_(&text)
         fn deserialize_i16<V>( self, visitor: V) -> Result<V::Value, DeError>
@@ -2398,16 +2416,19 @@ where
         {
             // No need to unescape because valid integer representations cannot be escaped
             let text = self.read_string()?;
+            let ghost tv = cow_chars(text);
             match parse_(&text) {
                 Ok(number) => visitor.visit_i16(number),
                 Err(_) => match text {
-                    Cow::Borrowed(t) => visitor.visit_str(t),
-                    Cow::Owned(t) => visitor.visit_string(t),
+                    Cow::Borrowed(t) => visit_str_is(Ghost(tv), visitor, t),
+                    Cow::Owned(t) => visit_string_is(Ghost(tv), visitor, t),
                 }
             }
         }
 //@end
-//@extract de::Deserializer::deserialize_i32 | src/de/mod.rs :: impl<'de, 'a, R, E> de::Deserializer<'de> for &'a mut Deserializer<'de, R, E> where R: XmlRead<'de>, E: EntityResolver, :: invoke deserialize_primitives :: invoke deserialize_num :: fn deserialize_i32 | serves=C07 features=serialize
+//@extract de::Deserializer::deserialize_i32 | src/de/mod.rs :: impl<'de, 'a, R, E> de::Deserializer<'de> for &'a mut Deserializer<'de, R, E> where R: XmlRead<'de>, E: EntityResolver, :: invoke deserialize_primitives :: invoke deserialize_num :: fn deserialize_i32 | serves=C07,C14 features=serialize
+//@rewrite visitor.visit_str( ==> visit_str_is(Ghost(tv), visitor, 
+//@rewrite visitor.visit_string( ==> visit_string_is(Ghost(tv), visitor, 
 //@rewrite-opt Self::Error ==> DeError
 //@rewrite text.parse() ==> parse_(&text)
         fn deserialize_i32<V>( self, visitor: V) -> Result<V::Value, DeError>
@@ -2416,16 +2437,19 @@ where
         {
             // No need to unescape because valid integer representations cannot be escaped
             let text = self.read_string()?;
+            let ghost tv = cow_chars(text);
             match parse_(&text) {
                 Ok(number) => visitor.visit_i32(number),
                 Err(_) => match text {
-                    Cow::Borrowed(t) => visitor.visit_str(t),
-                    Cow::Owned(t) => visitor.visit_string(t),
+                    Cow::Borrowed(t) => visit_str_is(Ghost(tv), visitor, t),
+                    Cow::Owned(t) => visit_string_is(Ghost(tv), visitor, t),
                 }
             }
         }
 //@end
-//@extract de::Deserializer::deserialize_i64 | src/de/mod.rs :: impl<'de, 'a, R, E> de::Deserializer<'de> for &'a mut Deserializer<'de, R, E> where R: XmlRead<'de>, E: EntityResolver, :: invoke deserialize_primitives :: invoke deserialize_num :: fn deserialize_i64 | serves=C07 features=serialize
+//@extract de::Deserializer::deserialize_i64 | src/de/mod.rs :: impl<'de, 'a, R, E> de::Deserializer<'de> for &'a mut Deserializer<'de, R, E> where R: XmlRead<'de>, E: EntityResolver, :: invoke deserialize_primitives :: invoke deserialize_num :: fn deserialize_i64 | serves=C07,C14 features=serialize
+//@rewrite visitor.visit_str( ==> visit_str_is(Ghost(tv), visitor, 
+//@rewrite visitor.visit_string( ==> visit_string_is(Ghost(tv), visitor, 
 //@rewrite-opt Self::Error ==> DeError
 //@rewrite text.parse() ==> parse_(&text)
         fn deserialize_i64<V>( self, visitor: V) -> Result<V::Value, DeError>
@@ -2434,16 +2458,19 @@ where
         {
             // No need to unescape because valid integer representations cannot be escaped
             let text = self.read_string()?;
+            let ghost tv = cow_chars(text);
             match parse_(&text) {
                 Ok(number) => visitor.visit_i64(number),
                 Err(_) => match text {
-                    Cow::Borrowed(t) => visitor.visit_str(t),
-                    Cow::Owned(t) => visitor.visit_string(t),
+                    Cow::Borrowed(t) => visit_str_is(Ghost(tv), visitor, t),
+                    Cow::Owned(t) => visit_string_is(Ghost(tv), visitor, t),
                 }
             }
         }
 //@end
-//@extract de::Deserializer::deserialize_u8 | src/de/mod.rs :: impl<'de, 'a, R, E> de::Deserializer<'de> for &'a mut Deserializer<'de, R, E> where R: XmlRead<'de>, E: EntityResolver, :: invoke deserialize_primitives :: invoke deserialize_num :: fn deserialize_u8 | serves=C07 features=serialize
+//@extract de::Deserializer::deserialize_u8 | src/de/mod.rs :: impl<'de, 'a, R, E> de::Deserializer<'de> for &'a mut Deserializer<'de, R, E> where R: XmlRead<'de>, E: EntityResolver, :: invoke deserialize_primitives :: invoke deserialize_num :: fn deserialize_u8 | serves=C07,C14 features=serialize
+//@rewrite visitor.visit_str( ==> visit_str_is(Ghost(tv), visitor, 
+//@rewrite visitor.visit_string( ==> visit_string_is(Ghost(tv), visitor, 
 //@rewrite-opt Self::Error ==> DeError
 //@rewrite text.parse() ==> parse_(&text)
         fn deserialize_u8<V>( self, visitor: V) -> Result<V::Value, DeError>
@@ -2452,16 +2479,19 @@ where
         {
             // No need to unescape because valid integer representations cannot be escaped
             let text = self.read_string()?;
+            let ghost tv = cow_chars(text);
             match parse_(&text) {
                 Ok(number) => visitor.visit_u8(number),
                 Err(_) => match text {
-                    Cow::Borrowed(t) => visitor.visit_str(t),
-                    Cow::Owned(t) => visitor.visit_string(t),
+                    Cow::Borrowed(t) => visit_str_is(Ghost(tv), visitor, t),
+                    Cow::Owned(t) => visit_string_is(Ghost(tv), visitor, t),
                 }
             }
         }
 //@end
-//@extract de::Deserializer::deserialize_u16 | src/de/mod.rs :: impl<'de, 'a, R, E> de::Deserializer<'de> for &'a mut Deserializer<'de, R, E> where R: XmlRead<'de>, E: EntityResolver, :: invoke deserialize_primitives :: invoke deserialize_num :: fn deserialize_u16 | serves=C07 features=serialize
+//@extract de::Deserializer::deserialize_u16 | src/de/mod.rs :: impl<'de, 'a, R, E> de::Deserializer<'de> for &'a mut Deserializer<'de, R, E> where R: XmlRead<'de>, E: EntityResolver, :: invoke deserialize_primitives :: invoke deserialize_num :: fn deserialize_u16 | serves=C07,C14 features=serialize
+//@rewrite visitor.visit_str( ==> visit_str_is(Ghost(tv), visitor, 
+//@rewrite visitor.visit_string( ==> visit_string_is(Ghost(tv), visitor, 
 //@rewrite-opt Self::Error ==> DeError
 //@rewrite text.parse() ==> parse_(&text)
         fn deserialize_u16<V>( self, visitor: V) -> Result<V::Value, DeError>
@@ -2470,16 +2500,19 @@ where
         {
             // No need to unescape because valid integer representations cannot be escaped
             let text = self.read_string()?;
+            let ghost tv = cow_chars(text);
             match parse_(&text) {
                 Ok(number) => visitor.visit_u16(number),
                 Err(_) => match text {
-                    Cow::Borrowed(t) => visitor.visit_str(t),
-                    Cow::Owned(t) => visitor.visit_string(t),
+                    Cow::Borrowed(t) => visit_str_is(Ghost(tv), visitor, t),
+                    Cow::Owned(t) => visit_string_is(Ghost(tv), visitor, t),
                 }
             }
         }
 //@end
-//@extract de::Deserializer::deserialize_u32 | src/de/mod.rs :: impl<'de, 'a, R, E> de::Deserializer<'de> for &'a mut Deserializer<'de, R, E> where R: XmlRead<'de>, E: EntityResolver, :: invoke deserialize_primitives :: invoke deserialize_num :: fn deserialize_u32 | serves=C07 features=serialize
+//@extract de::Deserializer::deserialize_u32 | src/de/mod.rs :: impl<'de, 'a, R, E> de::Deserializer<'de> for &'a mut Deserializer<'de, R, E> where R: XmlRead<'de>, E: EntityResolver, :: invoke deserialize_primitives :: invoke deserialize_num :: fn deserialize_u32 | serves=C07,C14 features=serialize
+//@rewrite visitor.visit_str( ==> visit_str_is(Ghost(tv), visitor, 
+//@rewrite visitor.visit_string( ==> visit_string_is(Ghost(tv), visitor, 
 //@rewrite-opt Self::Error ==> DeError
 //@rewrite text.parse() ==> parse_(&text)
         fn deserialize_u32<V>( self, visitor: V) -> Result<V::Value, DeError>
@@ -2488,16 +2521,19 @@ where
         {
             // No need to unescape because valid integer representations cannot be escaped
             let text = self.read_string()?;
+            let ghost tv = cow_chars(text);
             match parse_(&text) {
                 Ok(number) => visitor.visit_u32(number),
                 Err(_) => match text {
-                    Cow::Borrowed(t) => visitor.visit_str(t),
-                    Cow::Owned(t) => visitor.visit_string(t),
+                    Cow::Borrowed(t) => visit_str_is(Ghost(tv), visitor, t),
+                    Cow::Owned(t) => visit_string_is(Ghost(tv), visitor, t),
                 }
             }
         }
 //@end
-//@extract de::Deserializer::deserialize_u64 | src/de/mod.rs :: impl<'de, 'a, R, E> de::Deserializer<'de> for &'a mut Deserializer<'de, R, E> where R: XmlRead<'de>, E: EntityResolver, :: invoke deserialize_primitives :: invoke deserialize_num :: fn deserialize_u64 | serves=C07 features=serialize
+//@extract de::Deserializer::deserialize_u64 | src/de/mod.rs :: impl<'de, 'a, R, E> de::Deserializer<'de> for &'a mut Deserializer<'de, R, E> where R: XmlRead<'de>, E: EntityResolver, :: invoke deserialize_primitives :: invoke deserialize_num :: fn deserialize_u64 | serves=C07,C14 features=serialize
+//@rewrite visitor.visit_str( ==> visit_str_is(Ghost(tv), visitor, 
+//@rewrite visitor.visit_string( ==> visit_string_is(Ghost(tv), visitor, 
 //@rewrite-opt Self::Error ==> DeError
 //@rewrite text.parse() ==> parse_(&text)
         fn deserialize_u64<V>( self, visitor: V) -> Result<V::Value, DeError>
@@ -2506,16 +2542,19 @@ where
         {
             // No need to unescape because valid integer representations cannot be escaped
             let text = self.read_string()?;
+            let ghost tv = cow_chars(text);
             match parse_(&text) {
                 Ok(number) => visitor.visit_u64(number),
                 Err(_) => match text {
-                    Cow::Borrowed(t) => visitor.visit_str(t),
-                    Cow::Owned(t) => visitor.visit_string(t),
+                    Cow::Borrowed(t) => visit_str_is(Ghost(tv), visitor, t),
+                    Cow::Owned(t) => visit_string_is(Ghost(tv), visitor, t),
                 }
             }
         }
 //@end
-//@extract de::Deserializer::deserialize_f32 | src/de/mod.rs :: impl<'de, 'a, R, E> de::Deserializer<'de> for &'a mut Deserializer<'de, R, E> where R: XmlRead<'de>, E: EntityResolver, :: invoke deserialize_primitives :: invoke deserialize_num :: fn deserialize_f32 | serves=C07 features=serialize
+//@extract de::Deserializer::deserialize_f32 | src/de/mod.rs :: impl<'de, 'a, R, E> de::Deserializer<'de> for &'a mut Deserializer<'de, R, E> where R: XmlRead<'de>, E: EntityResolver, :: invoke deserialize_primitives :: invoke deserialize_num :: fn deserialize_f32 | serves=C07,C14 features=serialize
+//@rewrite visitor.visit_str( ==> visit_str_is(Ghost(tv), visitor, 
+//@rewrite visitor.visit_string( ==> visit_string_is(Ghost(tv), visitor, 
 //@rewrite-opt Self::Error ==> DeError
 //@rewrite text.parse() ==> parse_(&text)
         fn deserialize_f32<V>( self, visitor: V) -> Result<V::Value, DeError>
@@ -2524,16 +2563,19 @@ where
         {
             // No need to unescape because valid integer representations cannot be escaped
             let text = self.read_string()?;
+            let ghost tv = cow_chars(text);
             match parse_(&text) {
                 Ok(number) => visitor.visit_f32(number),
                 Err(_) => match text {
-                    Cow::Borrowed(t) => visitor.visit_str(t),
-                    Cow::Owned(t) => visitor.visit_string(t),
+                    Cow::Borrowed(t) => visit_str_is(Ghost(tv), visitor, t),
+                    Cow::Owned(t) => visit_string_is(Ghost(tv), visitor, t),
                 }
             }
         }
 //@end
-//@extract de::Deserializer::deserialize_f64 | src/de/mod.rs :: impl<'de, 'a, R, E> de::Deserializer<'de> for &'a mut Deserializer<'de, R, E> where R: XmlRead<'de>, E: EntityResolver, :: invoke deserialize_primitives :: invoke deserialize_num :: fn deserialize_f64 | serves=C07 features=serialize
+//@extract de::Deserializer::deserialize_f64 | src/de/mod.rs :: impl<'de, 'a, R, E> de::Deserializer<'de> for &'a mut Deserializer<'de, R, E> where R: XmlRead<'de>, E: EntityResolver, :: invoke deserialize_primitives :: invoke deserialize_num :: fn deserialize_f64 | serves=C07,C14 features=serialize
+//@rewrite visitor.visit_str( ==> visit_str_is(Ghost(tv), visitor, 
+//@rewrite visitor.visit_string( ==> visit_string_is(Ghost(tv), visitor, 
 //@rewrite-opt Self::Error ==> DeError
 //@rewrite text.parse() ==> parse_(&text)
         fn deserialize_f64<V>( self, visitor: V) -> Result<V::Value, DeError>
@@ -2542,11 +2584,12 @@ where
         {
             // No need to unescape because valid integer representations cannot be escaped
             let text = self.read_string()?;
+            let ghost tv = cow_chars(text);
             match parse_(&text) {
                 Ok(number) => visitor.visit_f64(number),
                 Err(_) => match text {
-                    Cow::Borrowed(t) => visitor.visit_str(t),
-                    Cow::Owned(t) => visitor.visit_string(t),
+                    Cow::Borrowed(t) => visit_str_is(Ghost(tv), visitor, t),
+                    Cow::Owned(t) => visit_string_is(Ghost(tv), visitor, t),
                 }
             }
         }
@@ -2560,16 +2603,19 @@ where
             self.deserialize_str(visitor)
         }
 //@end
-//@extract de::Deserializer::deserialize_str | src/de/mod.rs :: impl<'de, 'a, R, E> de::Deserializer<'de> for &'a mut Deserializer<'de, R, E> where R: XmlRead<'de>, E: EntityResolver, :: invoke deserialize_primitives :: fn deserialize_str | serves=C07 features=serialize
+//@extract de::Deserializer::deserialize_str | src/de/mod.rs :: impl<'de, 'a, R, E> de::Deserializer<'de> for &'a mut Deserializer<'de, R, E> where R: XmlRead<'de>, E: EntityResolver, :: invoke deserialize_primitives :: fn deserialize_str | serves=C07,C14 features=serialize
+//@rewrite visitor.visit_borrowed_str( ==> visit_borrowed_str_is(Ghost(tv), visitor, 
+//@rewrite visitor.visit_string( ==> visit_string_is(Ghost(tv), visitor, 
 //@rewrite-opt Self::Error ==> DeError
         fn deserialize_str<V>( self, visitor: V) -> Result<V::Value, DeError>
         where
             V: Visitor<'de>,
         {
             let text = self.read_string()?;
+            let ghost tv = cow_chars(text);
             match text {
-                Cow::Borrowed(string) => visitor.visit_borrowed_str(string),
-                Cow::Owned(string) => visitor.visit_string(string),
+                Cow::Borrowed(string) => visit_borrowed_str_is(Ghost(tv), visitor, string),
+                Cow::Owned(string) => visit_string_is(Ghost(tv), visitor, string),
             }
         }
 //@end
@@ -2959,7 +3005,9 @@ impl<'de> TextDeserializer<'de> {
             text.deserialize_bool(visitor)
         }
 //@end
-//@extract de::text::TextDeserializer::deserialize_i8 | src/de/text.rs :: impl<'de> Deserializer<'de> for TextDeserializer<'de> :: invoke deserialize_primitives :: invoke deserialize_num :: fn deserialize_i8 | serves=C07 features=serialize macro_files=src/de/mod.rs
+//@extract de::text::TextDeserializer::deserialize_i8 | src/de/text.rs :: impl<'de> Deserializer<'de> for TextDeserializer<'de> :: invoke deserialize_primitives :: invoke deserialize_num :: fn deserialize_i8 | serves=C07,C14 features=serialize macro_files=src/de/mod.rs
+//@rewrite visitor.visit_str( ==> visit_str_is(Ghost(tv), visitor, 
+//@rewrite visitor.visit_string( ==> visit_string_is(Ghost(tv), visitor, 
 //@rewrite-opt Self::Error ==> DeError
 //@rewrite text.parse() ==> parse_(&text)
         fn deserialize_i8<V>( self, visitor: V) -> Result<V::Value, DeError>
@@ -2968,16 +3016,19 @@ impl<'de> TextDeserializer<'de> {
         {
             // No need to unescape because valid integer representations cannot be escaped
             let text = self.read_string()?;
+            let ghost tv = cow_chars(text);
             match parse_(&text) {
                 Ok(number) => visitor.visit_i8(number),
                 Err(_) => match text {
-                    Cow::Borrowed(t) => visitor.visit_str(t),
-                    Cow::Owned(t) => visitor.visit_string(t),
+                    Cow::Borrowed(t) => visit_str_is(Ghost(tv), visitor, t),
+                    Cow::Owned(t) => visit_string_is(Ghost(tv), visitor, t),
                 }
             }
         }
 //@end
-//@extract de::text::TextDeserializer::deserialize_i16 | src/de/text.rs :: impl<'de> Deserializer<'de> for TextDeserializer<'de> :: invoke deserialize_primitives :: invoke deserialize_num :: fn deserialize_i16 | serves=C07 features=serialize macro_files=src/de/mod.rs
+//@extract de::text::TextDeserializer::deserialize_i16 | src/de/text.rs :: impl<'de> Deserializer<'de> for TextDeserializer<'de> :: invoke deserialize_primitives :: invoke deserialize_num :: fn deserialize_i16 | serves=C07,C14 features=serialize macro_files=src/de/mod.rs
+//@rewrite visitor.visit_str( ==> visit_str_is(Ghost(tv), visitor, 
+//@rewrite visitor.visit_string( ==> visit_string_is(Ghost(tv), visitor, 
 //@rewrite-opt Self::Error ==> DeError
 //@rewrite text.parse() ==> parse_(&text)
         fn deserialize_i16<V>( self, visitor: V) -> Result<V::Value, DeError>
@@ -2986,16 +3037,19 @@ impl<'de> TextDeserializer<'de> {
         {
             // No need to unescape because valid integer representations cannot be escaped
             let text = self.read_string()?;
+            let ghost tv = cow_chars(text);
             match parse_(&text) {
                 Ok(number) => visitor.visit_i16(number),
                 Err(_) => match text {
-                    Cow::Borrowed(t) => visitor.visit_str(t),
-                    Cow::Owned(t) => visitor.visit_string(t),
+                    Cow::Borrowed(t) => visit_str_is(Ghost(tv), visitor, t),
+                    Cow::Owned(t) => visit_string_is(Ghost(tv), visitor, t),
                 }
             }
         }
 //@end
-//@extract de::text::TextDeserializer::deserialize_i32 | src/de/text.rs :: impl<'de> Deserializer<'de> for TextDeserializer<'de> :: invoke deserialize_primitives :: invoke deserialize_num :: fn deserialize_i32 | serves=C07 features=serialize macro_files=src/de/mod.rs
+//@extract de::text::TextDeserializer::deserialize_i32 | src/de/text.rs :: impl<'de> Deserializer<'de> for TextDeserializer<'de> :: invoke deserialize_primitives :: invoke deserialize_num :: fn deserialize_i32 | serves=C07,C14 features=serialize macro_files=src/de/mod.rs
+//@rewrite visitor.visit_str( ==> visit_str_is(Ghost(tv), visitor, 
+//@rewrite visitor.visit_string( ==> visit_string_is(Ghost(tv), visitor, 
 //@rewrite-opt Self::Error ==> DeError
 //@rewrite text.parse() ==> parse_(&text)
         fn deserialize_i32<V>( self, visitor: V) -> Result<V::Value, DeError>
@@ -3004,16 +3058,19 @@ impl<'de> TextDeserializer<'de> {
         {
             // No need to unescape because valid integer representations cannot be escaped
             let text = self.read_string()?;
+            let ghost tv = cow_chars(text);
             match parse_(&text) {
                 Ok(number) => visitor.visit_i32(number),
                 Err(_) => match text {
-                    Cow::Borrowed(t) => visitor.visit_str(t),
-                    Cow::Owned(t) => visitor.visit_string(t),
+                    Cow::Borrowed(t) => visit_str_is(Ghost(tv), visitor, t),
+                    Cow::Owned(t) => visit_string_is(Ghost(tv), visitor, t),
                 }
             }
         }
 //@end
-//@extract de::text::TextDeserializer::deserialize_i64 | src/de/text.rs :: impl<'de> Deserializer<'de> for TextDeserializer<'de> :: invoke deserialize_primitives :: invoke deserialize_num :: fn deserialize_i64 | serves=C07 features=serialize macro_files=src/de/mod.rs
+//@extract de::text::TextDeserializer::deserialize_i64 | src/de/text.rs :: impl<'de> Deserializer<'de> for TextDeserializer<'de> :: invoke deserialize_primitives :: invoke deserialize_num :: fn deserialize_i64 | serves=C07,C14 features=serialize macro_files=src/de/mod.rs
+//@rewrite visitor.visit_str( ==> visit_str_is(Ghost(tv), visitor, 
+//@rewrite visitor.visit_string( ==> visit_string_is(Ghost(tv), visitor, 
 //@rewrite-opt Self::Error ==> DeError
 //@rewrite text.parse() ==> parse_(&text)
         fn deserialize_i64<V>( self, visitor: V) -> Result<V::Value, DeError>
@@ -3022,16 +3079,19 @@ impl<'de> TextDeserializer<'de> {
         {
             // No need to unescape because valid integer representations cannot be escaped
             let text = self.read_string()?;
+            let ghost tv = cow_chars(text);
             match parse_(&text) {
                 Ok(number) => visitor.visit_i64(number),
                 Err(_) => match text {
-                    Cow::Borrowed(t) => visitor.visit_str(t),
-                    Cow::Owned(t) => visitor.visit_string(t),
+                    Cow::Borrowed(t) => visit_str_is(Ghost(tv), visitor, t),
+                    Cow::Owned(t) => visit_string_is(Ghost(tv), visitor, t),
                 }
             }
         }
 //@end
-//@extract de::text::TextDeserializer::deserialize_u8 | src/de/text.rs :: impl<'de> Deserializer<'de> for TextDeserializer<'de> :: invoke deserialize_primitives :: invoke deserialize_num :: fn deserialize_u8 | serves=C07 features=serialize macro_files=src/de/mod.rs
+//@extract de::text::TextDeserializer::deserialize_u8 | src/de/text.rs :: impl<'de> Deserializer<'de> for TextDeserializer<'de> :: invoke deserialize_primitives :: invoke deserialize_num :: fn deserialize_u8 | serves=C07,C14 features=serialize macro_files=src/de/mod.rs
+//@rewrite visitor.visit_str( ==> visit_str_is(Ghost(tv), visitor, 
+//@rewrite visitor.visit_string( ==> visit_string_is(Ghost(tv), visitor, 
 //@rewrite-opt Self::Error ==> DeError
 //@rewrite text.parse() ==> parse_(&text)
         fn deserialize_u8<V>( self, visitor: V) -> Result<V::Value, DeError>
@@ -3040,16 +3100,19 @@ impl<'de> TextDeserializer<'de> {
         {
             // No need to unescape because valid integer representations cannot be escaped
             let text = self.read_string()?;
+            let ghost tv = cow_chars(text);
             match parse_(&text) {
                 Ok(number) => visitor.visit_u8(number),
                 Err(_) => match text {
-                    Cow::Borrowed(t) => visitor.visit_str(t),
-                    Cow::Owned(t) => visitor.visit_string(t),
+                    Cow::Borrowed(t) => visit_str_is(Ghost(tv), visitor, t),
+                    Cow::Owned(t) => visit_string_is(Ghost(tv), visitor, t),
                 }
             }
         }
 //@end
-//@extract de::text::TextDeserializer::deserialize_u16 | src/de/text.rs :: impl<'de> Deserializer<'de> for TextDeserializer<'de> :: invoke deserialize_primitives :: invoke deserialize_num :: fn deserialize_u16 | serves=C07 features=serialize macro_files=src/de/mod.rs
+//@extract de::text::TextDeserializer::deserialize_u16 | src/de/text.rs :: impl<'de> Deserializer<'de> for TextDeserializer<'de> :: invoke deserialize_primitives :: invoke deserialize_num :: fn deserialize_u16 | serves=C07,C14 features=serialize macro_files=src/de/mod.rs
+//@rewrite visitor.visit_str( ==> visit_str_is(Ghost(tv), visitor, 
+//@rewrite visitor.visit_string( ==> visit_string_is(Ghost(tv), visitor, 
 //@rewrite-opt Self::Error ==> DeError
 //@rewrite text.parse() ==> parse_(&text)
         fn deserialize_u16<V>( self, visitor: V) -> Result<V::Value, DeError>
@@ -3058,16 +3121,19 @@ impl<'de> TextDeserializer<'de> {
         {
             // No need to unescape because valid integer representations cannot be escaped
             let text = self.read_string()?;
+            let ghost tv = cow_chars(text);
             match parse_(&text) {
                 Ok(number) => visitor.visit_u16(number),
                 Err(_) => match text {
-                    Cow::Borrowed(t) => visitor.visit_str(t),
-                    Cow::Owned(t) => visitor.visit_string(t),
+                    Cow::Borrowed(t) => visit_str_is(Ghost(tv), visitor, t),
+                    Cow::Owned(t) => visit_string_is(Ghost(tv), visitor, t),
                 }
             }
         }
 //@end
-//@extract de::text::TextDeserializer::deserialize_u32 | src/de/text.rs :: impl<'de> Deserializer<'de> for TextDeserializer<'de> :: invoke deserialize_primitives :: invoke deserialize_num :: fn deserialize_u32 | serves=C07 features=serialize macro_files=src/de/mod.rs
+//@extract de::text::TextDeserializer::deserialize_u32 | src/de/text.rs :: impl<'de> Deserializer<'de> for TextDeserializer<'de> :: invoke deserialize_primitives :: invoke deserialize_num :: fn deserialize_u32 | serves=C07,C14 features=serialize macro_files=src/de/mod.rs
+//@rewrite visitor.visit_str( ==> visit_str_is(Ghost(tv), visitor, 
+//@rewrite visitor.visit_string( ==> visit_string_is(Ghost(tv), visitor, 
 //@rewrite-opt Self::Error ==> DeError
 //@rewrite text.parse() ==> parse_(&text)
         fn deserialize_u32<V>( self, visitor: V) -> Result<V::Value, DeError>
@@ -3076,16 +3142,19 @@ impl<'de> TextDeserializer<'de> {
         {
             // No need to unescape because valid integer representations cannot be escaped
             let text = self.read_string()?;
+            let ghost tv = cow_chars(text);
             match parse_(&text) {
                 Ok(number) => visitor.visit_u32(number),
                 Err(_) => match text {
-                    Cow::Borrowed(t) => visitor.visit_str(t),
-                    Cow::Owned(t) => visitor.visit_string(t),
+                    Cow::Borrowed(t) => visit_str_is(Ghost(tv), visitor, t),
+                    Cow::Owned(t) => visit_string_is(Ghost(tv), visitor, t),
                 }
             }
         }
 //@end
-//@extract de::text::TextDeserializer::deserialize_u64 | src/de/text.rs :: impl<'de> Deserializer<'de> for TextDeserializer<'de> :: invoke deserialize_primitives :: invoke deserialize_num :: fn deserialize_u64 | serves=C07 features=serialize macro_files=src/de/mod.rs
+//@extract de::text::TextDeserializer::deserialize_u64 | src/de/text.rs :: impl<'de> Deserializer<'de> for TextDeserializer<'de> :: invoke deserialize_primitives :: invoke deserialize_num :: fn deserialize_u64 | serves=C07,C14 features=serialize macro_files=src/de/mod.rs
+//@rewrite visitor.visit_str( ==> visit_str_is(Ghost(tv), visitor, 
+//@rewrite visitor.visit_string( ==> visit_string_is(Ghost(tv), visitor, 
 //@rewrite-opt Self::Error ==> DeError
 //@rewrite text.parse() ==> parse_(&text)
         fn deserialize_u64<V>( self, visitor: V) -> Result<V::Value, DeError>
@@ -3094,16 +3163,19 @@ impl<'de> TextDeserializer<'de> {
         {
             // No need to unescape because valid integer representations cannot be escaped
             let text = self.read_string()?;
+            let ghost tv = cow_chars(text);
             match parse_(&text) {
                 Ok(number) => visitor.visit_u64(number),
                 Err(_) => match text {
-                    Cow::Borrowed(t) => visitor.visit_str(t),
-                    Cow::Owned(t) => visitor.visit_string(t),
+                    Cow::Borrowed(t) => visit_str_is(Ghost(tv), visitor, t),
+                    Cow::Owned(t) => visit_string_is(Ghost(tv), visitor, t),
                 }
             }
         }
 //@end
-//@extract de::text::TextDeserializer::deserialize_f32 | src/de/text.rs :: impl<'de> Deserializer<'de> for TextDeserializer<'de> :: invoke deserialize_primitives :: invoke deserialize_num :: fn deserialize_f32 | serves=C07 features=serialize macro_files=src/de/mod.rs
+//@extract de::text::TextDeserializer::deserialize_f32 | src/de/text.rs :: impl<'de> Deserializer<'de> for TextDeserializer<'de> :: invoke deserialize_primitives :: invoke deserialize_num :: fn deserialize_f32 | serves=C07,C14 features=serialize macro_files=src/de/mod.rs
+//@rewrite visitor.visit_str( ==> visit_str_is(Ghost(tv), visitor, 
+//@rewrite visitor.visit_string( ==> visit_string_is(Ghost(tv), visitor, 
 //@rewrite-opt Self::Error ==> DeError
 //@rewrite text.parse() ==> parse_(&text)
         fn deserialize_f32<V>( self, visitor: V) -> Result<V::Value, DeError>
@@ -3112,16 +3184,19 @@ impl<'de> TextDeserializer<'de> {
         {
             // No need to unescape because valid integer representations cannot be escaped
             let text = self.read_string()?;
+            let ghost tv = cow_chars(text);
             match parse_(&text) {
                 Ok(number) => visitor.visit_f32(number),
                 Err(_) => match text {
-                    Cow::Borrowed(t) => visitor.visit_str(t),
-                    Cow::Owned(t) => visitor.visit_string(t),
+                    Cow::Borrowed(t) => visit_str_is(Ghost(tv), visitor, t),
+                    Cow::Owned(t) => visit_string_is(Ghost(tv), visitor, t),
                 }
             }
         }
 //@end
-//@extract de::text::TextDeserializer::deserialize_f64 | src/de/text.rs :: impl<'de> Deserializer<'de> for TextDeserializer<'de> :: invoke deserialize_primitives :: invoke deserialize_num :: fn deserialize_f64 | serves=C07 features=serialize macro_files=src/de/mod.rs
+//@extract de::text::TextDeserializer::deserialize_f64 | src/de/text.rs :: impl<'de> Deserializer<'de> for TextDeserializer<'de> :: invoke deserialize_primitives :: invoke deserialize_num :: fn deserialize_f64 | serves=C07,C14 features=serialize macro_files=src/de/mod.rs
+//@rewrite visitor.visit_str( ==> visit_str_is(Ghost(tv), visitor, 
+//@rewrite visitor.visit_string( ==> visit_string_is(Ghost(tv), visitor, 
 //@rewrite-opt Self::Error ==> DeError
 //@rewrite text.parse() ==> parse_(&text)
         fn deserialize_f64<V>( self, visitor: V) -> Result<V::Value, DeError>
@@ -3130,11 +3205,12 @@ impl<'de> TextDeserializer<'de> {
         {
             // No need to unescape because valid integer representations cannot be escaped
             let text = self.read_string()?;
+            let ghost tv = cow_chars(text);
             match parse_(&text) {
                 Ok(number) => visitor.visit_f64(number),
                 Err(_) => match text {
-                    Cow::Borrowed(t) => visitor.visit_str(t),
-                    Cow::Owned(t) => visitor.visit_string(t),
+                    Cow::Borrowed(t) => visit_str_is(Ghost(tv), visitor, t),
+                    Cow::Owned(t) => visit_string_is(Ghost(tv), visitor, t),
                 }
             }
         }
@@ -3148,16 +3224,19 @@ impl<'de> TextDeserializer<'de> {
             self.deserialize_str(visitor)
         }
 //@end
-//@extract de::text::TextDeserializer::deserialize_str | src/de/text.rs :: impl<'de> Deserializer<'de> for TextDeserializer<'de> :: invoke deserialize_primitives :: fn deserialize_str | serves=C07 features=serialize macro_files=src/de/mod.rs
+//@extract de::text::TextDeserializer::deserialize_str | src/de/text.rs :: impl<'de> Deserializer<'de> for TextDeserializer<'de> :: invoke deserialize_primitives :: fn deserialize_str | serves=C07,C14 features=serialize macro_files=src/de/mod.rs
+//@rewrite visitor.visit_borrowed_str( ==> visit_borrowed_str_is(Ghost(tv), visitor, 
+//@rewrite visitor.visit_string( ==> visit_string_is(Ghost(tv), visitor, 
 //@rewrite-opt Self::Error ==> DeError
         fn deserialize_str<V>( self, visitor: V) -> Result<V::Value, DeError>
         where
             V: Visitor<'de>,
         {
             let text = self.read_string()?;
+            let ghost tv = cow_chars(text);
             match text {
-                Cow::Borrowed(string) => visitor.visit_borrowed_str(string),
-                Cow::Owned(string) => visitor.visit_string(string),
+                Cow::Borrowed(string) => visit_borrowed_str_is(Ghost(tv), visitor, string),
+                Cow::Owned(string) => visit_string_is(Ghost(tv), visitor, string),
             }
         }
 //@end
@@ -3393,7 +3472,9 @@ where
             text.deserialize_bool(visitor)
         }
 //@end
-//@extract de::map::MapValueDeserializer::deserialize_i8 | src/de/map.rs :: impl<'de, 'd, 'm, R, E> de::Deserializer<'de> for MapValueDeserializer<'de, 'd, 'm, R, E> where R: XmlRead<'de>, E: EntityResolver, :: invoke deserialize_primitives :: invoke deserialize_num :: fn deserialize_i8 | serves=C07 features=serialize macro_files=src/de/mod.rs
+//@extract de::map::MapValueDeserializer::deserialize_i8 | src/de/map.rs :: impl<'de, 'd, 'm, R, E> de::Deserializer<'de> for MapValueDeserializer<'de, 'd, 'm, R, E> where R: XmlRead<'de>, E: EntityResolver, :: invoke deserialize_primitives :: invoke deserialize_num :: fn deserialize_i8 | serves=C07,C14 features=serialize macro_files=src/de/mod.rs
+//@rewrite visitor.visit_str( ==> visit_str_is(Ghost(tv), visitor, 
+//@rewrite visitor.visit_string( ==> visit_string_is(Ghost(tv), visitor, 
 //@rewrite-opt Self::Error ==> DeError
 //@rewrite text.parse() ==> parse_(&text)
         fn deserialize_i8<V>(self, visitor: V) -> Result<V::Value, DeError>
@@ -3403,16 +3484,19 @@ where
         { let mut self__ = self;
             // No need to unescape because valid integer representations cannot be escaped
             let text = self__.read_string()?;
+            let ghost tv = cow_chars(text);
             match parse_(&text) {
                 Ok(number) => visitor.visit_i8(number),
                 Err(_) => match text {
-                    Cow::Borrowed(t) => visitor.visit_str(t),
-                    Cow::Owned(t) => visitor.visit_string(t),
+                    Cow::Borrowed(t) => visit_str_is(Ghost(tv), visitor, t),
+                    Cow::Owned(t) => visit_string_is(Ghost(tv), visitor, t),
                 }
             }
         }
 //@end
-//@extract de::map::MapValueDeserializer::deserialize_i16 | src/de/map.rs :: impl<'de, 'd, 'm, R, E> de::Deserializer<'de> for MapValueDeserializer<'de, 'd, 'm, R, E> where R: XmlRead<'de>, E: EntityResolver, :: invoke deserialize_primitives :: invoke deserialize_num :: fn deserialize_i16 | serves=C07 features=serialize macro_files=src/de/mod.rs
+//@extract de::map::MapValueDeserializer::deserialize_i16 | src/de/map.rs :: impl<'de, 'd, 'm, R, E> de::Deserializer<'de> for MapValueDeserializer<'de, 'd, 'm, R, E> where R: XmlRead<'de>, E: EntityResolver, :: invoke deserialize_primitives :: invoke deserialize_num :: fn deserialize_i16 | serves=C07,C14 features=serialize macro_files=src/de/mod.rs
+//@rewrite visitor.visit_str( ==> visit_str_is(Ghost(tv), visitor, 
+//@rewrite visitor.visit_string( ==> visit_string_is(Ghost(tv), visitor, 
 //@rewrite-opt Self::Error ==> DeError
 //@rewrite text.parse() ==> parse_(&text)
         fn deserialize_i16<V>(self, visitor: V) -> Result<V::Value, DeError>
@@ -3422,16 +3506,19 @@ where
         { let mut self__ = self;
             // No need to unescape because valid integer representations cannot be escaped
             let text = self__.read_string()?;
+            let ghost tv = cow_chars(text);
             match parse_(&text) {
                 Ok(number) => visitor.visit_i16(number),
                 Err(_) => match text {
-                    Cow::Borrowed(t) => visitor.visit_str(t),
-                    Cow::Owned(t) => visitor.visit_string(t),
+                    Cow::Borrowed(t) => visit_str_is(Ghost(tv), visitor, t),
+                    Cow::Owned(t) => visit_string_is(Ghost(tv), visitor, t),
                 }
             }
         }
 //@end
-//@extract de::map::MapValueDeserializer::deserialize_i32 | src/de/map.rs :: impl<'de, 'd, 'm, R, E> de::Deserializer<'de> for MapValueDeserializer<'de, 'd, 'm, R, E> where R: XmlRead<'de>, E: EntityResolver, :: invoke deserialize_primitives :: invoke deserialize_num :: fn deserialize_i32 | serves=C07 features=serialize macro_files=src/de/mod.rs
+//@extract de::map::MapValueDeserializer::deserialize_i32 | src/de/map.rs :: impl<'de, 'd, 'm, R, E> de::Deserializer<'de> for MapValueDeserializer<'de, 'd, 'm, R, E> where R: XmlRead<'de>, E: EntityResolver, :: invoke deserialize_primitives :: invoke deserialize_num :: fn deserialize_i32 | serves=C07,C14 features=serialize macro_files=src/de/mod.rs
+//@rewrite visitor.visit_str( ==> visit_str_is(Ghost(tv), visitor, 
+//@rewrite visitor.visit_string( ==> visit_string_is(Ghost(tv), visitor, 
 //@rewrite-opt Self::Error ==> DeError
 //@rewrite text.parse() ==> parse_(&text)
         fn deserialize_i32<V>(self, visitor: V) -> Result<V::Value, DeError>
@@ -3441,16 +3528,19 @@ where
         { let mut self__ = self;
             // No need to unescape because valid integer representations cannot be escaped
             let text = self__.read_string()?;
+            let ghost tv = cow_chars(text);
             match parse_(&text) {
                 Ok(number) => visitor.visit_i32(number),
                 Err(_) => match text {
-                    Cow::Borrowed(t) => visitor.visit_str(t),
-                    Cow::Owned(t) => visitor.visit_string(t),
+                    Cow::Borrowed(t) => visit_str_is(Ghost(tv), visitor, t),
+                    Cow::Owned(t) => visit_string_is(Ghost(tv), visitor, t),
                 }
             }
         }
 //@end
-//@extract de::map::MapValueDeserializer::deserialize_i64 | src/de/map.rs :: impl<'de, 'd, 'm, R, E> de::Deserializer<'de> for MapValueDeserializer<'de, 'd, 'm, R, E> where R: XmlRead<'de>, E: EntityResolver, :: invoke deserialize_primitives :: invoke deserialize_num :: fn deserialize_i64 | serves=C07 features=serialize macro_files=src/de/mod.rs
+//@extract de::map::MapValueDeserializer::deserialize_i64 | src/de/map.rs :: impl<'de, 'd, 'm, R, E> de::Deserializer<'de> for MapValueDeserializer<'de, 'd, 'm, R, E> where R: XmlRead<'de>, E: EntityResolver, :: invoke deserialize_primitives :: invoke deserialize_num :: fn deserialize_i64 | serves=C07,C14 features=serialize macro_files=src/de/mod.rs
+//@rewrite visitor.visit_str( ==> visit_str_is(Ghost(tv), visitor, 
+//@rewrite visitor.visit_string( ==> visit_string_is(Ghost(tv), visitor, 
 //@rewrite-opt Self::Error ==> DeError
 //@rewrite text.parse() ==> parse_(&text)
         fn deserialize_i64<V>(self, visitor: V) -> Result<V::Value, DeError>
@@ -3460,16 +3550,19 @@ where
         { let mut self__ = self;
             // No need to unescape because valid integer representations cannot be escaped
             let text = self__.read_string()?;
+            let ghost tv = cow_chars(text);
             match parse_(&text) {
                 Ok(number) => visitor.visit_i64(number),
                 Err(_) => match text {
-                    Cow::Borrowed(t) => visitor.visit_str(t),
-                    Cow::Owned(t) => visitor.visit_string(t),
+                    Cow::Borrowed(t) => visit_str_is(Ghost(tv), visitor, t),
+                    Cow::Owned(t) => visit_string_is(Ghost(tv), visitor, t),
                 }
             }
         }
 //@end
-//@extract de::map::MapValueDeserializer::deserialize_u8 | src/de/map.rs :: impl<'de, 'd, 'm, R, E> de::Deserializer<'de> for MapValueDeserializer<'de, 'd, 'm, R, E> where R: XmlRead<'de>, E: EntityResolver, :: invoke deserialize_primitives :: invoke deserialize_num :: fn deserialize_u8 | serves=C07 features=serialize macro_files=src/de/mod.rs
+//@extract de::map::MapValueDeserializer::deserialize_u8 | src/de/map.rs :: impl<'de, 'd, 'm, R, E> de::Deserializer<'de> for MapValueDeserializer<'de, 'd, 'm, R, E> where R: XmlRead<'de>, E: EntityResolver, :: invoke deserialize_primitives :: invoke deserialize_num :: fn deserialize_u8 | serves=C07,C14 features=serialize macro_files=src/de/mod.rs
+//@rewrite visitor.visit_str( ==> visit_str_is(Ghost(tv), visitor, 
+//@rewrite visitor.visit_string( ==> visit_string_is(Ghost(tv), visitor, 
 //@rewrite-opt Self::Error ==> DeError
 //@rewrite text.parse() ==> parse_(&text)
         fn deserialize_u8<V>(self, visitor: V) -> Result<V::Value, DeError>
@@ -3479,16 +3572,19 @@ where
         { let mut self__ = self;
             // No need to unescape because valid integer representations cannot be escaped
             let text = self__.read_string()?;
+            let ghost tv = cow_chars(text);
             match parse_(&text) {
                 Ok(number) => visitor.visit_u8(number),
                 Err(_) => match text {
-                    Cow::Borrowed(t) => visitor.visit_str(t),
-                    Cow::Owned(t) => visitor.visit_string(t),
+                    Cow::Borrowed(t) => visit_str_is(Ghost(tv), visitor, t),
+                    Cow::Owned(t) => visit_string_is(Ghost(tv), visitor, t),
                 }
             }
         }
 //@end
-//@extract de::map::MapValueDeserializer::deserialize_u16 | src/de/map.rs :: impl<'de, 'd, 'm, R, E> de::Deserializer<'de> for MapValueDeserializer<'de, 'd, 'm, R, E> where R: XmlRead<'de>, E: EntityResolver, :: invoke deserialize_primitives :: invoke deserialize_num :: fn deserialize_u16 | serves=C07 features=serialize macro_files=src/de/mod.rs
+//@extract de::map::MapValueDeserializer::deserialize_u16 | src/de/map.rs :: impl<'de, 'd, 'm, R, E> de::Deserializer<'de> for MapValueDeserializer<'de, 'd, 'm, R, E> where R: XmlRead<'de>, E: EntityResolver, :: invoke deserialize_primitives :: invoke deserialize_num :: fn deserialize_u16 | serves=C07,C14 features=serialize macro_files=src/de/mod.rs
+//@rewrite visitor.visit_str( ==> visit_str_is(Ghost(tv), visitor, 
+//@rewrite visitor.visit_string( ==> visit_string_is(Ghost(tv), visitor, 
 //@rewrite-opt Self::Error ==> DeError
 //@rewrite text.parse() ==> parse_(&text)
         fn deserialize_u16<V>(self, visitor: V) -> Result<V::Value, DeError>
@@ -3498,16 +3594,19 @@ where
         { let mut self__ = self;
             // No need to unescape because valid integer representations cannot be escaped
             let text = self__.read_string()?;
+            let ghost tv = cow_chars(text);
             match parse_(&text) {
                 Ok(number) => visitor.visit_u16(number),
                 Err(_) => match text {
-                    Cow::Borrowed(t) => visitor.visit_str(t),
-                    Cow::Owned(t) => visitor.visit_string(t),
+                    Cow::Borrowed(t) => visit_str_is(Ghost(tv), visitor, t),
+                    Cow::Owned(t) => visit_string_is(Ghost(tv), visitor, t),
                 }
             }
         }
 //@end
-//@extract de::map::MapValueDeserializer::deserialize_u32 | src/de/map.rs :: impl<'de, 'd, 'm, R, E> de::Deserializer<'de> for MapValueDeserializer<'de, 'd, 'm, R, E> where R: XmlRead<'de>, E: EntityResolver, :: invoke deserialize_primitives :: invoke deserialize_num :: fn deserialize_u32 | serves=C07 features=serialize macro_files=src/de/mod.rs
+//@extract de::map::MapValueDeserializer::deserialize_u32 | src/de/map.rs :: impl<'de, 'd, 'm, R, E> de::Deserializer<'de> for MapValueDeserializer<'de, 'd, 'm, R, E> where R: XmlRead<'de>, E: EntityResolver, :: invoke deserialize_primitives :: invoke deserialize_num :: fn deserialize_u32 | serves=C07,C14 features=serialize macro_files=src/de/mod.rs
+//@rewrite visitor.visit_str( ==> visit_str_is(Ghost(tv), visitor, 
+//@rewrite visitor.visit_string( ==> visit_string_is(Ghost(tv), visitor, 
 //@rewrite-opt Self::Error ==> DeError
 //@rewrite text.parse() ==> parse_(&text)
         fn deserialize_u32<V>(self, visitor: V) -> Result<V::Value, DeError>
@@ -3517,16 +3616,19 @@ where
         { let mut self__ = self;
             // No need to unescape because valid integer representations cannot be escaped
             let text = self__.read_string()?;
+            let ghost tv = cow_chars(text);
             match parse_(&text) {
                 Ok(number) => visitor.visit_u32(number),
                 Err(_) => match text {
-                    Cow::Borrowed(t) => visitor.visit_str(t),
-                    Cow::Owned(t) => visitor.visit_string(t),
+                    Cow::Borrowed(t) => visit_str_is(Ghost(tv), visitor, t),
+                    Cow::Owned(t) => visit_string_is(Ghost(tv), visitor, t),
                 }
             }
         }
 //@end
-//@extract de::map::MapValueDeserializer::deserialize_u64 | src/de/map.rs :: impl<'de, 'd, 'm, R, E> de::Deserializer<'de> for MapValueDeserializer<'de, 'd, 'm, R, E> where R: XmlRead<'de>, E: EntityResolver, :: invoke deserialize_primitives :: invoke deserialize_num :: fn deserialize_u64 | serves=C07 features=serialize macro_files=src/de/mod.rs
+//@extract de::map::MapValueDeserializer::deserialize_u64 | src/de/map.rs :: impl<'de, 'd, 'm, R, E> de::Deserializer<'de> for MapValueDeserializer<'de, 'd, 'm, R, E> where R: XmlRead<'de>, E: EntityResolver, :: invoke deserialize_primitives :: invoke deserialize_num :: fn deserialize_u64 | serves=C07,C14 features=serialize macro_files=src/de/mod.rs
+//@rewrite visitor.visit_str( ==> visit_str_is(Ghost(tv), visitor, 
+//@rewrite visitor.visit_string( ==> visit_string_is(Ghost(tv), visitor, 
 //@rewrite-opt Self::Error ==> DeError
 //@rewrite text.parse() ==> parse_(&text)
         fn deserialize_u64<V>(self, visitor: V) -> Result<V::Value, DeError>
@@ -3536,16 +3638,19 @@ where
         { let mut self__ = self;
             // No need to unescape because valid integer representations cannot be escaped
             let text = self__.read_string()?;
+            let ghost tv = cow_chars(text);
             match parse_(&text) {
                 Ok(number) => visitor.visit_u64(number),
                 Err(_) => match text {
-                    Cow::Borrowed(t) => visitor.visit_str(t),
-                    Cow::Owned(t) => visitor.visit_string(t),
+                    Cow::Borrowed(t) => visit_str_is(Ghost(tv), visitor, t),
+                    Cow::Owned(t) => visit_string_is(Ghost(tv), visitor, t),
                 }
             }
         }
 //@end
-//@extract de::map::MapValueDeserializer::deserialize_f32 | src/de/map.rs :: impl<'de, 'd, 'm, R, E> de::Deserializer<'de> for MapValueDeserializer<'de, 'd, 'm, R, E> where R: XmlRead<'de>, E: EntityResolver, :: invoke deserialize_primitives :: invoke deserialize_num :: fn deserialize_f32 | serves=C07 features=serialize macro_files=src/de/mod.rs
+//@extract de::map::MapValueDeserializer::deserialize_f32 | src/de/map.rs :: impl<'de, 'd, 'm, R, E> de::Deserializer<'de> for MapValueDeserializer<'de, 'd, 'm, R, E> where R: XmlRead<'de>, E: EntityResolver, :: invoke deserialize_primitives :: invoke deserialize_num :: fn deserialize_f32 | serves=C07,C14 features=serialize macro_files=src/de/mod.rs
+//@rewrite visitor.visit_str( ==> visit_str_is(Ghost(tv), visitor, 
+//@rewrite visitor.visit_string( ==> visit_string_is(Ghost(tv), visitor, 
 //@rewrite-opt Self::Error ==> DeError
 //@rewrite text.parse() ==> parse_(&text)
         fn deserialize_f32<V>(self, visitor: V) -> Result<V::Value, DeError>
@@ -3555,16 +3660,19 @@ where
         { let mut self__ = self;
             // No need to unescape because valid integer representations cannot be escaped
             let text = self__.read_string()?;
+            let ghost tv = cow_chars(text);
             match parse_(&text) {
                 Ok(number) => visitor.visit_f32(number),
                 Err(_) => match text {
-                    Cow::Borrowed(t) => visitor.visit_str(t),
-                    Cow::Owned(t) => visitor.visit_string(t),
+                    Cow::Borrowed(t) => visit_str_is(Ghost(tv), visitor, t),
+                    Cow::Owned(t) => visit_string_is(Ghost(tv), visitor, t),
                 }
             }
         }
 //@end
-//@extract de::map::MapValueDeserializer::deserialize_f64 | src/de/map.rs :: impl<'de, 'd, 'm, R, E> de::Deserializer<'de> for MapValueDeserializer<'de, 'd, 'm, R, E> where R: XmlRead<'de>, E: EntityResolver, :: invoke deserialize_primitives :: invoke deserialize_num :: fn deserialize_f64 | serves=C07 features=serialize macro_files=src/de/mod.rs
+//@extract de::map::MapValueDeserializer::deserialize_f64 | src/de/map.rs :: impl<'de, 'd, 'm, R, E> de::Deserializer<'de> for MapValueDeserializer<'de, 'd, 'm, R, E> where R: XmlRead<'de>, E: EntityResolver, :: invoke deserialize_primitives :: invoke deserialize_num :: fn deserialize_f64 | serves=C07,C14 features=serialize macro_files=src/de/mod.rs
+//@rewrite visitor.visit_str( ==> visit_str_is(Ghost(tv), visitor, 
+//@rewrite visitor.visit_string( ==> visit_string_is(Ghost(tv), visitor, 
 //@rewrite-opt Self::Error ==> DeError
 //@rewrite text.parse() ==> parse_(&text)
         fn deserialize_f64<V>(self, visitor: V) -> Result<V::Value, DeError>
@@ -3574,11 +3682,12 @@ where
         { let mut self__ = self;
             // No need to unescape because valid integer representations cannot be escaped
             let text = self__.read_string()?;
+            let ghost tv = cow_chars(text);
             match parse_(&text) {
                 Ok(number) => visitor.visit_f64(number),
                 Err(_) => match text {
-                    Cow::Borrowed(t) => visitor.visit_str(t),
-                    Cow::Owned(t) => visitor.visit_string(t),
+                    Cow::Borrowed(t) => visit_str_is(Ghost(tv), visitor, t),
+                    Cow::Owned(t) => visit_string_is(Ghost(tv), visitor, t),
                 }
             }
         }
@@ -3593,7 +3702,9 @@ where
             self.deserialize_str(visitor)
         }
 //@end
-//@extract de::map::MapValueDeserializer::deserialize_str | src/de/map.rs :: impl<'de, 'd, 'm, R, E> de::Deserializer<'de> for MapValueDeserializer<'de, 'd, 'm, R, E> where R: XmlRead<'de>, E: EntityResolver, :: invoke deserialize_primitives :: fn deserialize_str | serves=C07 features=serialize macro_files=src/de/mod.rs
+//@extract de::map::MapValueDeserializer::deserialize_str | src/de/map.rs :: impl<'de, 'd, 'm, R, E> de::Deserializer<'de> for MapValueDeserializer<'de, 'd, 'm, R, E> where R: XmlRead<'de>, E: EntityResolver, :: invoke deserialize_primitives :: fn deserialize_str | serves=C07,C14 features=serialize macro_files=src/de/mod.rs
+//@rewrite visitor.visit_borrowed_str( ==> visit_borrowed_str_is(Ghost(tv), visitor, 
+//@rewrite visitor.visit_string( ==> visit_string_is(Ghost(tv), visitor, 
 //@rewrite-opt Self::Error ==> DeError
         fn deserialize_str<V>(self, visitor: V) -> Result<V::Value, DeError>
         where
@@ -3601,9 +3712,10 @@ where
             requires self.ok(),
         { let mut self__ = self;
             let text = self__.read_string()?;
+            let ghost tv = cow_chars(text);
             match text {
-                Cow::Borrowed(string) => visitor.visit_borrowed_str(string),
-                Cow::Owned(string) => visitor.visit_string(string),
+                Cow::Borrowed(string) => visit_borrowed_str_is(Ghost(tv), visitor, string),
+                Cow::Owned(string) => visit_string_is(Ghost(tv), visitor, string),
             }
         }
 //@end
@@ -3836,7 +3948,9 @@ where
             text.deserialize_bool(visitor)
         }
 //@end
-//@extract de::map::ElementDeserializer::deserialize_i8 | src/de/map.rs :: impl<'de, 'd, R, E> de::Deserializer<'de> for ElementDeserializer<'de, 'd, R, E> where R: XmlRead<'de>, E: EntityResolver, :: invoke deserialize_primitives :: invoke deserialize_num :: fn deserialize_i8 | serves=C07 features=serialize macro_files=src/de/mod.rs
+//@extract de::map::ElementDeserializer::deserialize_i8 | src/de/map.rs :: impl<'de, 'd, R, E> de::Deserializer<'de> for ElementDeserializer<'de, 'd, R, E> where R: XmlRead<'de>, E: EntityResolver, :: invoke deserialize_primitives :: invoke deserialize_num :: fn deserialize_i8 | serves=C07,C14 features=serialize macro_files=src/de/mod.rs
+//@rewrite visitor.visit_str( ==> visit_str_is(Ghost(tv), visitor, 
+//@rewrite visitor.visit_string( ==> visit_string_is(Ghost(tv), visitor, 
 //@rewrite-opt Self::Error ==> DeError
 //@rewrite text.parse() ==> parse_(&text)
         fn deserialize_i8<V>(self, visitor: V) -> Result<V::Value, DeError>
@@ -3846,16 +3960,19 @@ where
         { let mut self__ = self;
             // No need to unescape because valid integer representations cannot be escaped
             let text = self__.read_string()?;
+            let ghost tv = cow_chars(text);
             match parse_(&text) {
                 Ok(number) => visitor.visit_i8(number),
                 Err(_) => match text {
-                    Cow::Borrowed(t) => visitor.visit_str(t),
-                    Cow::Owned(t) => visitor.visit_string(t),
+                    Cow::Borrowed(t) => visit_str_is(Ghost(tv), visitor, t),
+                    Cow::Owned(t) => visit_string_is(Ghost(tv), visitor, t),
                 }
             }
         }
 //@end
-//@extract de::map::ElementDeserializer::deserialize_i16 | src/de/map.rs :: impl<'de, 'd, R, E> de::Deserializer<'de> for ElementDeserializer<'de, 'd, R, E> where R: XmlRead<'de>, E: EntityResolver, :: invoke deserialize_primitives :: invoke deserialize_num :: fn deserialize_i16 | serves=C07 features=serialize macro_files=src/de/mod.rs
+//@extract de::map::ElementDeserializer::deserialize_i16 | src/de/map.rs :: impl<'de, 'd, R, E> de::Deserializer<'de> for ElementDeserializer<'de, 'd, R, E> where R: XmlRead<'de>, E: EntityResolver, :: invoke deserialize_primitives :: invoke deserialize_num :: fn deserialize_i16 | serves=C07,C14 features=serialize macro_files=src/de/mod.rs
+//@rewrite visitor.visit_str( ==> visit_str_is(Ghost(tv), visitor, 
+//@rewrite visitor.visit_string( ==> visit_string_is(Ghost(tv), visitor, 
 //@rewrite-opt Self::Error ==> DeError
 //@rewrite text.parse() ==> parse_(&text)
         fn deserialize_i16<V>(self, visitor: V) -> Result<V::Value, DeError>
@@ -3865,16 +3982,19 @@ where
         { let mut self__ = self;
             // No need to unescape because valid integer representations cannot be escaped
             let text = self__.read_string()?;
+            let ghost tv = cow_chars(text);
             match parse_(&text) {
                 Ok(number) => visitor.visit_i16(number),
                 Err(_) => match text {
-                    Cow::Borrowed(t) => visitor.visit_str(t),
-                    Cow::Owned(t) => visitor.visit_string(t),
+                    Cow::Borrowed(t) => visit_str_is(Ghost(tv), visitor, t),
+                    Cow::Owned(t) => visit_string_is(Ghost(tv), visitor, t),
                 }
             }
         }
 //@end
-//@extract de::map::ElementDeserializer::deserialize_i32 | src/de/map.rs :: impl<'de, 'd, R, E> de::Deserializer<'de> for ElementDeserializer<'de, 'd, R, E> where R: XmlRead<'de>, E: EntityResolver, :: invoke deserialize_primitives :: invoke deserialize_num :: fn deserialize_i32 | serves=C07 features=serialize macro_files=src/de/mod.rs
+//@extract de::map::ElementDeserializer::deserialize_i32 | src/de/map.rs :: impl<'de, 'd, R, E> de::Deserializer<'de> for ElementDeserializer<'de, 'd, R, E> where R: XmlRead<'de>, E: EntityResolver, :: invoke deserialize_primitives :: invoke deserialize_num :: fn deserialize_i32 | serves=C07,C14 features=serialize macro_files=src/de/mod.rs
+//@rewrite visitor.visit_str( ==> visit_str_is(Ghost(tv), visitor, 
+//@rewrite visitor.visit_string( ==> visit_string_is(Ghost(tv), visitor, 
 //@rewrite-opt Self::Error ==> DeError
 //@rewrite text.parse() ==> parse_(&text)
         fn deserialize_i32<V>(self, visitor: V) -> Result<V::Value, DeError>
@@ -3884,16 +4004,19 @@ where
         { let mut self__ = self;
             // No need to unescape because valid integer representations cannot be escaped
             let text = self__.read_string()?;
+            let ghost tv = cow_chars(text);
             match parse_(&text) {
                 Ok(number) => visitor.visit_i32(number),
                 Err(_) => match text {
-                    Cow::Borrowed(t) => visitor.visit_str(t),
-                    Cow::Owned(t) => visitor.visit_string(t),
+                    Cow::Borrowed(t) => visit_str_is(Ghost(tv), visitor, t),
+                    Cow::Owned(t) => visit_string_is(Ghost(tv), visitor, t),
                 }
             }
         }
 //@end
-//@extract de::map::ElementDeserializer::deserialize_i64 | src/de/map.rs :: impl<'de, 'd, R, E> de::Deserializer<'de> for ElementDeserializer<'de, 'd, R, E> where R: XmlRead<'de>, E: EntityResolver, :: invoke deserialize_primitives :: invoke deserialize_num :: fn deserialize_i64 | serves=C07 features=serialize macro_files=src/de/mod.rs
+//@extract de::map::ElementDeserializer::deserialize_i64 | src/de/map.rs :: impl<'de, 'd, R, E> de::Deserializer<'de> for ElementDeserializer<'de, 'd, R, E> where R: XmlRead<'de>, E: EntityResolver, :: invoke deserialize_primitives :: invoke deserialize_num :: fn deserialize_i64 | serves=C07,C14 features=serialize macro_files=src/de/mod.rs
+//@rewrite visitor.visit_str( ==> visit_str_is(Ghost(tv), visitor, 
+//@rewrite visitor.visit_string( ==> visit_string_is(Ghost(tv), visitor, 
 //@rewrite-opt Self::Error ==> DeError
 //@rewrite text.parse() ==> parse_(&text)
         fn deserialize_i64<V>(self, visitor: V) -> Result<V::Value, DeError>
@@ -3903,16 +4026,19 @@ where
         { let mut self__ = self;
             // No need to unescape because valid integer representations cannot be escaped
             let text = self__.read_string()?;
+            let ghost tv = cow_chars(text);
             match parse_(&text) {
                 Ok(number) => visitor.visit_i64(number),
                 Err(_) => match text {
-                    Cow::Borrowed(t) => visitor.visit_str(t),
-                    Cow::Owned(t) => visitor.visit_string(t),
+                    Cow::Borrowed(t) => visit_str_is(Ghost(tv), visitor, t),
+                    Cow::Owned(t) => visit_string_is(Ghost(tv), visitor, t),
                 }
             }
         }
 //@end
-//@extract de::map::ElementDeserializer::deserialize_u8 | src/de/map.rs :: impl<'de, 'd, R, E> de::Deserializer<'de> for ElementDeserializer<'de, 'd, R, E> where R: XmlRead<'de>, E: EntityResolver, :: invoke deserialize_primitives :: invoke deserialize_num :: fn deserialize_u8 | serves=C07 features=serialize macro_files=src/de/mod.rs
+//@extract de::map::ElementDeserializer::deserialize_u8 | src/de/map.rs :: impl<'de, 'd, R, E> de::Deserializer<'de> for ElementDeserializer<'de, 'd, R, E> where R: XmlRead<'de>, E: EntityResolver, :: invoke deserialize_primitives :: invoke deserialize_num :: fn deserialize_u8 | serves=C07,C14 features=serialize macro_files=src/de/mod.rs
+//@rewrite visitor.visit_str( ==> visit_str_is(Ghost(tv), visitor, 
+//@rewrite visitor.visit_string( ==> visit_string_is(Ghost(tv), visitor, 
 //@rewrite-opt Self::Error ==> DeError
 //@rewrite text.parse() ==> parse_(&text)
         fn deserialize_u8<V>(self, visitor: V) -> Result<V::Value, DeError>
@@ -3922,16 +4048,19 @@ where
         { let mut self__ = self;
             // No need to unescape because valid integer representations cannot be escaped
             let text = self__.read_string()?;
+            let ghost tv = cow_chars(text);
             match parse_(&text) {
                 Ok(number) => visitor.visit_u8(number),
                 Err(_) => match text {
-                    Cow::Borrowed(t) => visitor.visit_str(t),
-                    Cow::Owned(t) => visitor.visit_string(t),
+                    Cow::Borrowed(t) => visit_str_is(Ghost(tv), visitor, t),
+                    Cow::Owned(t) => visit_string_is(Ghost(tv), visitor, t),
                 }
             }
         }
 //@end
-//@extract de::map::ElementDeserializer::deserialize_u16 | src/de/map.rs :: impl<'de, 'd, R, E> de::Deserializer<'de> for ElementDeserializer<'de, 'd, R, E> where R: XmlRead<'de>, E: EntityResolver, :: invoke deserialize_primitives :: invoke deserialize_num :: fn deserialize_u16 | serves=C07 features=serialize macro_files=src/de/mod.rs
+//@extract de::map::ElementDeserializer::deserialize_u16 | src/de/map.rs :: impl<'de, 'd, R, E> de::Deserializer<'de> for ElementDeserializer<'de, 'd, R, E> where R: XmlRead<'de>, E: EntityResolver, :: invoke deserialize_primitives :: invoke deserialize_num :: fn deserialize_u16 | serves=C07,C14 features=serialize macro_files=src/de/mod.rs
+//@rewrite visitor.visit_str( ==> visit_str_is(Ghost(tv), visitor, 
+//@rewrite visitor.visit_string( ==> visit_string_is(Ghost(tv), visitor, 
 //@rewrite-opt Self::Error ==> DeError
 //@rewrite text.parse() ==> parse_(&text)
         fn deserialize_u16<V>(self, visitor: V) -> Result<V::Value, DeError>
@@ -3941,16 +4070,19 @@ where
         { let mut self__ = self;
             // No need to unescape because valid integer representations cannot be escaped
             let text = self__.read_string()?;
+            let ghost tv = cow_chars(text);
             match parse_(&text) {
                 Ok(number) => visitor.visit_u16(number),
                 Err(_) => match text {
-                    Cow::Borrowed(t) => visitor.visit_str(t),
-                    Cow::Owned(t) => visitor.visit_string(t),
+                    Cow::Borrowed(t) => visit_str_is(Ghost(tv), visitor, t),
+                    Cow::Owned(t) => visit_string_is(Ghost(tv), visitor, t),
                 }
             }
         }
 //@end
-//@extract de::map::ElementDeserializer::deserialize_u32 | src/de/map.rs :: impl<'de, 'd, R, E> de::Deserializer<'de> for ElementDeserializer<'de, 'd, R, E> where R: XmlRead<'de>, E: EntityResolver, :: invoke deserialize_primitives :: invoke deserialize_num :: fn deserialize_u32 | serves=C07 features=serialize macro_files=src/de/mod.rs
+//@extract de::map::ElementDeserializer::deserialize_u32 | src/de/map.rs :: impl<'de, 'd, R, E> de::Deserializer<'de> for ElementDeserializer<'de, 'd, R, E> where R: XmlRead<'de>, E: EntityResolver, :: invoke deserialize_primitives :: invoke deserialize_num :: fn deserialize_u32 | serves=C07,C14 features=serialize macro_files=src/de/mod.rs
+//@rewrite visitor.visit_str( ==> visit_str_is(Ghost(tv), visitor, 
+//@rewrite visitor.visit_string( ==> visit_string_is(Ghost(tv), visitor, 
 //@rewrite-opt Self::Error ==> DeError
 //@rewrite text.parse() ==> parse_(&text)
         fn deserialize_u32<V>(self, visitor: V) -> Result<V::Value, DeError>
@@ -3960,16 +4092,19 @@ where
         { let mut self__ = self;
             // No need to unescape because valid integer representations cannot be escaped
             let text = self__.read_string()?;
+            let ghost tv = cow_chars(text);
             match parse_(&text) {
                 Ok(number) => visitor.visit_u32(number),
                 Err(_) => match text {
-                    Cow::Borrowed(t) => visitor.visit_str(t),
-                    Cow::Owned(t) => visitor.visit_string(t),
+                    Cow::Borrowed(t) => visit_str_is(Ghost(tv), visitor, t),
+                    Cow::Owned(t) => visit_string_is(Ghost(tv), visitor, t),
                 }
             }
         }
 //@end
-//@extract de::map::ElementDeserializer::deserialize_u64 | src/de/map.rs :: impl<'de, 'd, R, E> de::Deserializer<'de> for ElementDeserializer<'de, 'd, R, E> where R: XmlRead<'de>, E: EntityResolver, :: invoke deserialize_primitives :: invoke deserialize_num :: fn deserialize_u64 | serves=C07 features=serialize macro_files=src/de/mod.rs
+//@extract de::map::ElementDeserializer::deserialize_u64 | src/de/map.rs :: impl<'de, 'd, R, E> de::Deserializer<'de> for ElementDeserializer<'de, 'd, R, E> where R: XmlRead<'de>, E: EntityResolver, :: invoke deserialize_primitives :: invoke deserialize_num :: fn deserialize_u64 | serves=C07,C14 features=serialize macro_files=src/de/mod.rs
+//@rewrite visitor.visit_str( ==> visit_str_is(Ghost(tv), visitor, 
+//@rewrite visitor.visit_string( ==> visit_string_is(Ghost(tv), visitor, 
 //@rewrite-opt Self::Error ==> DeError
 //@rewrite text.parse() ==> parse_(&text)
         fn deserialize_u64<V>(self, visitor: V) -> Result<V::Value, DeError>
@@ -3979,16 +4114,19 @@ where
         { let mut self__ = self;
             // No need to unescape because valid integer representations cannot be escaped
             let text = self__.read_string()?;
+            let ghost tv = cow_chars(text);
             match parse_(&text) {
                 Ok(number) => visitor.visit_u64(number),
                 Err(_) => match text {
-                    Cow::Borrowed(t) => visitor.visit_str(t),
-                    Cow::Owned(t) => visitor.visit_string(t),
+                    Cow::Borrowed(t) => visit_str_is(Ghost(tv), visitor, t),
+                    Cow::Owned(t) => visit_string_is(Ghost(tv), visitor, t),
                 }
             }
         }
 //@end
-//@extract de::map::ElementDeserializer::deserialize_f32 | src/de/map.rs :: impl<'de, 'd, R, E> de::Deserializer<'de> for ElementDeserializer<'de, 'd, R, E> where R: XmlRead<'de>, E: EntityResolver, :: invoke deserialize_primitives :: invoke deserialize_num :: fn deserialize_f32 | serves=C07 features=serialize macro_files=src/de/mod.rs
+//@extract de::map::ElementDeserializer::deserialize_f32 | src/de/map.rs :: impl<'de, 'd, R, E> de::Deserializer<'de> for ElementDeserializer<'de, 'd, R, E> where R: XmlRead<'de>, E: EntityResolver, :: invoke deserialize_primitives :: invoke deserialize_num :: fn deserialize_f32 | serves=C07,C14 features=serialize macro_files=src/de/mod.rs
+//@rewrite visitor.visit_str( ==> visit_str_is(Ghost(tv), visitor, 
+//@rewrite visitor.visit_string( ==> visit_string_is(Ghost(tv), visitor, 
 //@rewrite-opt Self::Error ==> DeError
 //@rewrite text.parse() ==> parse_(&text)
         fn deserialize_f32<V>(self, visitor: V) -> Result<V::Value, DeError>
@@ -3998,16 +4136,19 @@ where
         { let mut self__ = self;
             // No need to unescape because valid integer representations cannot be escaped
             let text = self__.read_string()?;
+            let ghost tv = cow_chars(text);
             match parse_(&text) {
                 Ok(number) => visitor.visit_f32(number),
                 Err(_) => match text {
-                    Cow::Borrowed(t) => visitor.visit_str(t),
-                    Cow::Owned(t) => visitor.visit_string(t),
+                    Cow::Borrowed(t) => visit_str_is(Ghost(tv), visitor, t),
+                    Cow::Owned(t) => visit_string_is(Ghost(tv), visitor, t),
                 }
             }
         }
 //@end
-//@extract de::map::ElementDeserializer::deserialize_f64 | src/de/map.rs :: impl<'de, 'd, R, E> de::Deserializer<'de> for ElementDeserializer<'de, 'd, R, E> where R: XmlRead<'de>, E: EntityResolver, :: invoke deserialize_primitives :: invoke deserialize_num :: fn deserialize_f64 | serves=C07 features=serialize macro_files=src/de/mod.rs
+//@extract de::map::ElementDeserializer::deserialize_f64 | src/de/map.rs :: impl<'de, 'd, R, E> de::Deserializer<'de> for ElementDeserializer<'de, 'd, R, E> where R: XmlRead<'de>, E: EntityResolver, :: invoke deserialize_primitives :: invoke deserialize_num :: fn deserialize_f64 | serves=C07,C14 features=serialize macro_files=src/de/mod.rs
+//@rewrite visitor.visit_str( ==> visit_str_is(Ghost(tv), visitor, 
+//@rewrite visitor.visit_string( ==> visit_string_is(Ghost(tv), visitor, 
 //@rewrite-opt Self::Error ==> DeError
 //@rewrite text.parse() ==> parse_(&text)
         fn deserialize_f64<V>(self, visitor: V) -> Result<V::Value, DeError>
@@ -4017,11 +4158,12 @@ where
         { let mut self__ = self;
             // No need to unescape because valid integer representations cannot be escaped
             let text = self__.read_string()?;
+            let ghost tv = cow_chars(text);
             match parse_(&text) {
                 Ok(number) => visitor.visit_f64(number),
                 Err(_) => match text {
-                    Cow::Borrowed(t) => visitor.visit_str(t),
-                    Cow::Owned(t) => visitor.visit_string(t),
+                    Cow::Borrowed(t) => visit_str_is(Ghost(tv), visitor, t),
+                    Cow::Owned(t) => visit_string_is(Ghost(tv), visitor, t),
                 }
             }
         }
@@ -4036,7 +4178,9 @@ where
             self.deserialize_str(visitor)
         }
 //@end
-//@extract de::map::ElementDeserializer::deserialize_str | src/de/map.rs :: impl<'de, 'd, R, E> de::Deserializer<'de> for ElementDeserializer<'de, 'd, R, E> where R: XmlRead<'de>, E: EntityResolver, :: invoke deserialize_primitives :: fn deserialize_str | serves=C07 features=serialize macro_files=src/de/mod.rs
+//@extract de::map::ElementDeserializer::deserialize_str | src/de/map.rs :: impl<'de, 'd, R, E> de::Deserializer<'de> for ElementDeserializer<'de, 'd, R, E> where R: XmlRead<'de>, E: EntityResolver, :: invoke deserialize_primitives :: fn deserialize_str | serves=C07,C14 features=serialize macro_files=src/de/mod.rs
+//@rewrite visitor.visit_borrowed_str( ==> visit_borrowed_str_is(Ghost(tv), visitor, 
+//@rewrite visitor.visit_string( ==> visit_string_is(Ghost(tv), visitor, 
 //@rewrite-opt Self::Error ==> DeError
         fn deserialize_str<V>(self, visitor: V) -> Result<V::Value, DeError>
         where
@@ -4044,9 +4188,10 @@ where
             requires self.de_ok(),
         { let mut self__ = self;
             let text = self__.read_string()?;
+            let ghost tv = cow_chars(text);
             match text {
-                Cow::Borrowed(string) => visitor.visit_borrowed_str(string),
-                Cow::Owned(string) => visitor.visit_string(string),
+                Cow::Borrowed(string) => visit_borrowed_str_is(Ghost(tv), visitor, string),
+                Cow::Owned(string) => visit_string_is(Ghost(tv), visitor, string),
             }
         }
 //@end
